@@ -301,6 +301,11 @@ class SymInt:
     def __pos__(self):
         return self
 
+    def __abs__(self):
+        if self.lo >= 0:
+            return self
+        return SymInt._mk(z3.If(self.e < 0, -self.e, self.e), 0, max(abs(self.lo), abs(self.hi)))
+
     def __mul__(self, k):
         if type(k) is SymInt:
             c = [self.lo * k.lo, self.lo * k.hi, self.hi * k.lo, self.hi * k.hi]
